@@ -186,6 +186,11 @@ func seqString(id string, variant, big int) string {
 			n = n*31 + int(c)
 		}
 	}
+	// variant 5: the first two sequence identifiers are realised as two DIFFERENT strings with the SAME CRC32
+	// (they fall in the same hash chunk and must still be two classes)
+	if variant == 5 && big == 0 && (n == 0 || n == 1) {
+		return []string{"tatctccgatcatccggcgctgtg", "tccaggtggcggagctcaactata"}[n]
+	}
 	rng := rand.New(rand.NewSource(int64(variant)*100003 + 17))
 	b := make([]byte, 0, 24)
 	for i := 0; i < 6+variant%5; i++ {
